@@ -299,3 +299,27 @@ func intRange(t types.Type, x Term) Term {
 	}
 	return tTrue
 }
+
+// isOpaqueStruct: a struct type that is not declared in the repository (time.Time, sync.Mutex, xml.Name ...):
+// its values are opaque scalars, never decomposed into fields.
+func isOpaqueStruct(t types.Type) bool {
+	if _, ok := t.Underlying().(*types.Struct); !ok {
+		return false
+	}
+	n, ok := t.(*types.Named)
+	if !ok {
+		return false
+	}
+	if n.Obj().Pkg() == nil {
+		return true
+	}
+	p := n.Obj().Pkg().Path()
+	return !(p == repoModule || strings.HasPrefix(p, repoModule+"/"))
+}
+
+func isRepoStruct(t types.Type) bool {
+	if _, ok := t.Underlying().(*types.Struct); !ok {
+		return false
+	}
+	return !isOpaqueStruct(t)
+}
